@@ -22,7 +22,7 @@ class DCmp:
 
     def bad(self, kind, msg):
         side = getattr(self, "side", None)
-        lang = "python|parse" if side == "py" else ("cxx|parse" if side == "cxx" else "rust|dec")
+        lang = {"py": "python|parse", "cxx": "cxx|parse", "java": "java|parse"}.get(side, "rust|dec")
         self.rep.add(f"{self.prop}|{lang}|{kind}", msg, self.where)
 
     def order_ok(self, nbytes, order):
